@@ -495,8 +495,15 @@ func runTraces(k *vf.Case) {
 			st.Events = append(st.Events, sdktrace.Event{Name: vf.Pick(r, []string{"ev", "exception", ""}), Attributes: genAttrs(r, r.Intn(3)), DroppedAttributeCount: r.Intn(3), Time: genTime(r)})
 		}
 		if r.Chance(1, 20) {
-			for j := 0; j < 40; j++ {
+			// more events / links than the SDK's default limits of 128 (limits can be raised, stubs have none)
+			ne := vf.Pick(r, []int{40, 127, 128, 129, 300})
+			for j := 0; j < ne; j++ {
 				st.Events = append(st.Events, sdktrace.Event{Name: fmt.Sprint("e", j), Time: genTime(r)})
+			}
+			if r.Bool() {
+				for j := vf.Pick(r, []int{128, 129, 200}); j > 0; j-- {
+					st.Links = append(st.Links, sdktrace.Link{SpanContext: genSC(r, false)})
+				}
 			}
 		}
 		for j := r.Intn(4); j > 0; j-- {
